@@ -52,6 +52,13 @@ def sym_send(inp, part):
     if dest >= 1:
         w.add_node(n, sleeping=(dest == 2))
     buffering = inp.bool("buffering")
+    other = None
+    if dest == 2 and cmd == 1 and inp.bool("other_parked"):
+        # an earlier command for the same child with another value type is already held
+        other = Message(n, c, 1, 0, 77, "earlier")
+        run(w.gw.send(other))
+        if w.tr.writes:
+            raise Violation("harness:park-wrote", "send to a sleeping node wrote immediately")
     m = Message(n, c, cmd, ack, t, p)
     expect = M.line(n, c, cmd, ack, t, p)
     try:
@@ -92,6 +99,14 @@ def sym_send(inp, part):
             hit += 1
     if hit != 1:
         raise Violation("held-but-not-released", "send(%r) was held; the destination's next wake wrote %r" % (expect, writes))
+    if other is not None:
+        oline = M.line(n, c, 1, 0, 77, "earlier")
+        ohit = 0
+        for wr in writes:
+            if wr == oline:
+                ohit += 1
+        if ohit != 1:
+            raise Violation("earlier-held-command-discarded", "a command held earlier for the same child (type 77) was written %d times at the wake: %r" % (ohit, writes))
     return ["held-then-written", cmd]
 
 
